@@ -10,6 +10,8 @@ package join
 //	join+discard    [join, real discard plugin matching drop=1]
 //	discard+join    [real discard plugin matching drop=1, join]      (D5 shows here)
 //	break+join      [action returning ActionBreak for brk=1, join]  (D15 shows here)
+//	seljoin-mf      [pass-through action, join with match_fields kind=multi]
+//	seljoin-doif    [pass-through action, join with do_if kind == multi]   (events with kind=other inside open runs)
 //
 // Every action of the chain is wrapped by a logging shim that delegates to the real plugin and
 // records each Do call (stream, event key or "time-out", result) under one global sequence counter;
@@ -29,6 +31,7 @@ import (
 
 	"github.com/ozontech/file.d/fd"
 	"github.com/ozontech/file.d/pipeline"
+	"github.com/ozontech/file.d/pipeline/doif"
 	_ "github.com/ozontech/file.d/plugin/action/discard"
 	"github.com/ozontech/file.d/plugin/input/fake"
 	"github.com/ozontech/file.d/plugin/output/devnull"
@@ -43,7 +46,8 @@ type c15pStream struct {
 	Src    int      `json:"src"`
 	Name   string   `json:"name"`
 	Events []string `json:"events"`
-	Stalls []int    `json:"stalls"` // after that many events the feeder waits for a time-out delivery
+	Stalls []int    `json:"stalls"`   // after that many events the feeder waits for a time-out delivery
+	Delay  int      `json:"delay_ms"` // the feeder starts that late (lets other streams drain first)
 }
 
 type c15pScenario struct {
@@ -192,7 +196,13 @@ var c15pStartMu sync.Mutex // serialises the GOMAXPROCS dance around Pipeline.St
 
 func c15pAction(rec *c15pRec, act int, isJoin bool, mk func() pipeline.ActionPlugin, config pipeline.AnyConfig,
 	conds pipeline.MatchConditions) *pipeline.ActionPluginStaticInfo {
+	return c15pActionSel(rec, act, isJoin, mk, config, conds, nil)
+}
+
+func c15pActionSel(rec *c15pRec, act int, isJoin bool, mk func() pipeline.ActionPlugin, config pipeline.AnyConfig,
+	conds pipeline.MatchConditions, doIf *doif.Checker) *pipeline.ActionPluginStaticInfo {
 	return &pipeline.ActionPluginStaticInfo{
+		DoIfChecker: doIf,
 		PluginStaticInfo: &pipeline.PluginStaticInfo{
 			Type: "c15",
 			Factory: func() (pipeline.AnyPlugin, pipeline.AnyConfig) {
@@ -287,6 +297,17 @@ func c15pRun(sc *c15pScenario) (res *c15pResult) {
 	case "break+join":
 		p.AddAction(c15pAction(rec, 0, false, mkBreak, nil, nil))
 		p.AddAction(c15pAction(rec, 1, true, mkJoin, joinConf, nil))
+	case "seljoin-mf":
+		p.AddAction(c15pAction(rec, 0, false, mkPass, nil, nil))
+		p.AddAction(c15pAction(rec, 1, true, mkJoin, joinConf,
+			pipeline.MatchConditions{pipeline.MatchCondition{Field: []string{"kind"}, Values: []string{"multi"}}}))
+	case "seljoin-doif":
+		chk, err := doif.NewFromMap(map[string]any{"op": "equal", "field": "kind", "values": []any{"multi"}})
+		if err != nil {
+			panic(err)
+		}
+		p.AddAction(c15pAction(rec, 0, false, mkPass, nil, nil))
+		p.AddAction(c15pActionSel(rec, 1, true, mkJoin, joinConf, nil, chk))
 	default:
 		panic("c15: unknown chain " + sc.Chain)
 	}
@@ -311,6 +332,7 @@ func c15pRun(sc *c15pScenario) (res *c15pResult) {
 		go func() {
 			defer wg.Done()
 			key := fmt.Sprintf("%d/%s", st.Src, st.Name)
+			time.Sleep(time.Duration(st.Delay) * time.Millisecond)
 			stall := map[int]bool{}
 			for _, s := range st.Stalls {
 				stall[s] = true
